@@ -10,14 +10,14 @@ PROP = "C20"
 LEVEL = "exploration"
 RULE = ("differential: node A runs a generated history H (SDO traffic incl. aborted / mutated transfers and reconfiguration of 1017h, 1016h, "
         "1005h/1006h and PDO parameters, heartbeats, SYNCs, RPDOs, LSS requests, SDO client requests left busy, EMCY, NMT state changes, "
-        "application timers, ticks, every 4th pair with the reset requested by the application from inside a callback of the stack (heartbeat event / state change, SDO client completion, timer callback), optionally ending between COTmrService and COTmrProcess; every 4th pair a sparse configuration with a single timer period and the reset taken while the expired event is unprocessed), then NMT reset communication (or reset node); node B is a FRESH executor initialised with exactly the "
+        "application timers, ticks, a quarter with a self-starting application (OPERATIONAL requested inside the notification of PRE-OPERATIONAL), every 8th pair on a build with two SDO servers / without LSS and SDO client, every 4th pair with the reset requested by the application from inside a callback of the stack (heartbeat event / state change, SDO client completion, timer callback), optionally ending between COTmrService and COTmrProcess; every 4th pair a sparse configuration with a single timer period and the reset taken while the expired event is unprocessed), then NMT reset communication (or reset node); node B is a FRESH executor initialised with exactly the "
         "dictionary values A holds after the reset; both receive the same probe sequence P (every service, >= 3 periods of every cyclic "
         "producer) and the traces (frames with relative ticks, callbacks, API results, driver calls) must be equal, frames of one tick "
         "compared as a multiset; timer-pool occupancy per owner class must be equal apart from A's live application timers, which keep their slots and their exact period through H, reset and P; the timer processing right after the reset must run nothing of the old communication; "
         "non-trivial = pair whose H changed >= 1 communication parameter or left a transfer/timer open; distinct by (configuration, H)")
 ASSUMPTIONS = ["equivalence is established for the probes in P only", "CONodeGetErr is excluded from P",
                "H stores no LSS bit timing (node ids: yes) and ends in PRE-OPERATIONAL, OPERATIONAL or STOPPED", "no parameter groups (1010h/1011h) in these dictionaries (C17 covers them)"]
-VARIANTS = ["asan"]
+VARIANTS = ["asan", "asan2", "lean"]
 
 
 def clone_with_values(cfg, tokens):
@@ -45,9 +45,9 @@ def clone_with_values(cfg, tokens):
     return c
 
 
-def make_cfg(rng):
+def make_cfg(rng, ns=1):
     nid = rng.choice([1, 5, 100])
-    cfg = H.full_config(rng, 1, nodeid=nid, drop=("1010",), tmrnum=32, freq=rng.choice([1000, 1000, 10000]))
+    cfg = H.full_config(rng, ns, nodeid=nid, drop=("1010",), tmrnum=32, freq=rng.choice([1000, 1000, 10000]))
     return cfg
 
 
@@ -140,7 +140,7 @@ def gen_history(rng, cfg, g):
             else:
                 lines.append(sdo_wr(0x1014, 0, (0x80 + nid) | rng.choice([0, 0x80000000]), 4))
         elif x < 0.34:
-            lines.append(g.sdo_frame(0))
+            lines.append(g.sdo_frame(0 if g.ns == 1 else None))
         elif x < 0.42:
             d = g.sdo_dialogue()
             lines += d[:rng.randint(1, min(len(d), 60))] if d else []
@@ -210,6 +210,11 @@ def probes(rng, cfg, nid=None):
     for (idx, sub) in [(0x1000, 0), (0x1001, 0), (0x1005, 0), (0x1017, 0), (0x1018, 1), (0x1016, 1), (0x1014, 0), (0x2000, 2), (0x2010, 3), (0x2020, 6), (0x1800, 1), (0x1A00, 0)]:
         if cfg.has(idx, sub):
             P += [rd(idx, sub), close]
+    if cfg.has(0x1201, 1):
+        # the second SDO server: idle like the first one
+        rid2 = 0x610 + nid
+        for (idx, sub) in [(0x1000, 0), (0x2000, 2), (0x1018, 1)]:
+            P += ["rx %x 8 %s" % (rid2, bytes([0x40, idx & 0xFF, idx >> 8, sub, 0, 0, 0, 0]).hex()), "rx %x 8 8000000000000008" % rid2]
     hist = [(0x1003, n) for n in (0, 1, 2, 4)]
     for (idx, sub) in hist:                              # "emergencies cleared": the history the node reports restarts like the fresh node's
         if cfg.has(idx, sub):
@@ -303,17 +308,23 @@ def callback_reset(rng, cfg, kind):
     return w, ["rx %x 1 05" % (0x700 + n_), "resetin hbchange %d" % typ, "rx %x 1 7f" % (0x700 + n_)]
 
 
-def run_pair(res, exe, rng, first, sched=False, cbreset=False):
+def run_pair(res, exe, rng, first, sched=False, cbreset=False, ns=1):
     if sched:
         cfg, hist, napp = make_sched(rng)
         interesting = True
     else:
-        cfg = make_cfg(rng)
-        g = H.Hostile(rng, cfg, 1)
+        cfg = make_cfg(rng, ns)
+        g = H.Hostile(rng, cfg, ns)
         hist, interesting, napp = gen_history(rng, cfg, g)
     nid = cfg.nodeid
     kind = rng.choice([130, 130, 129])
-    a = S.Sim(exe, cfg)
+    # a self-starting device: the application requests OPERATIONAL inside the notification of PRE-OPERATIONAL - at the first start, at
+    # the reset, and in the fresh node
+    autostart = (not sched) and rng.random() < 0.25
+    a = S.Sim(exe, cfg, start=not autostart)
+    if autostart:
+        a.cmd("modecb 2 setmode 3")
+        a.cmd("start")
     b = None
     app = AppTimers(hist)
     try:
@@ -395,7 +406,12 @@ def run_pair(res, exe, rng, first, sched=False, cbreset=False):
         cfgB = clone_with_values(cfg, tokens)
         if stored:
             cfgB.lss = stored
-        b = S.Sim(exe, cfgB)
+        b = S.Sim(exe, cfgB, start=not autostart)
+        if autostart:
+            b.cmd("modecb 2 setmode 3")
+            b.cmd("start")
+            b.cmd("appclear")
+            res.counters["pairs_with_self_starting_application"] += 1
         b.cmd("geterr")
         P = probes(rng, cfg, nid)
         for i, p in enumerate(P):
@@ -463,7 +479,14 @@ def work(item, ctx):
     res = F.Res()
     for h in range(item[2]):
         rng = random.Random(F.seed_for(ctx["seed"], "C20", item[1], h))
-        run_pair(res, ctx["exes"]["asan"], rng, item[1] == 0 and h == 0, sched=(h % 4 == 3), cbreset=(h % 4 == 1))
+        if h % 8 == 2:
+            run_pair(res, ctx["exes"]["asan2"], rng, False, ns=2)          # two SDO servers (and two clients)
+            res.counters["pairs_with_two_servers"] += 1
+        elif h % 8 == 6:
+            run_pair(res, ctx["exes"]["lean"], rng, False)                 # build without LSS slave and SDO client
+            res.counters["pairs_without_lss_and_sdo_client"] += 1
+        else:
+            run_pair(res, ctx["exes"]["asan"], rng, item[1] == 0 and h == 0, sched=(h % 4 == 3), cbreset=(h % 4 == 1))
     return res
 
 
